@@ -404,11 +404,12 @@ def parseMessage(rawMessage, oobFDs):
             pass
 
     if m.signature:
-        if len(m.signature) > 255:
-            # a SIGNATURE cannot be longer; a header field of another string
-            # type can, and decoding costs signature length x elements
+        if not isinstance(m.signature, str) or len(m.signature) > 255:
+            # a SIGNATURE is a string of at most 255 characters; a header
+            # field sent with another type (a long STRING, an array of
+            # strings) is not, and decoding costs signature length x elements
             raise error.MarshallingError(
-                'Body signature exceeds the maximum length of 255'
+                'Invalid body signature in the message header'
             )
 
         nbytes, m.body = marshal.unmarshal(
